@@ -425,6 +425,17 @@ def run(ctx):
         cls = type(f"KZ{counter[0]}", (env.PaneBase,), {'__annotations__': {'z': complex, 'name': str, 'zs': t.List[complex]}, 'zs': env.pfield(default_factory=list),
                                                          '__module__': __name__})
         x = cls.make_unchecked(complex(rng.choice((1.5, -2.0, 0.0)), rng.choice((2.0, -0.5))), rng.choice(STRINGS), [complex(1, 1)])
+        if rng.random() < 0.5:
+            # a converter whose data form has the SAME Python type as the value (seconds kept as milliseconds): applying it twice on
+            # the way out, or not at all on the way in, changes the number
+            ms = SC(int, int, 'milliseconds', 'milliseconds', lambda secs: secs * 1000)
+            ms.ty = lambda millis: millis // 1000
+            custom = {int: ms}
+            counter[0] += 1
+            cls = type(f"KM{counter[0]}", (env.PaneBase,), {'__annotations__': {'secs': int, 'name': str, 'ss': t.List[int]}, 'ss': env.pfield(default_factory=list),
+                                                             '__module__': __name__})
+            x = cls.make_unchecked(rng.choice((5, 0, 86400)), rng.choice(STRINGS), [1, 2])
+            ctx.count('same_type_custom_forms')
         for fmt in ('json', 'yaml'):
             for sink_kind in ('path', 'StringIO', 'returned-string'):
                 for method in (True, False):
@@ -449,9 +460,53 @@ def run(ctx):
                         observe(getattr(env.m_io, f"from_{fmt}"), io.StringIO(text), cls, custom=custom)
                     if r.kind != 'value' or not deep_typed_eq(x, r.val)[0]:
                         ctx.violation('custom-converters-honoured', 'custom', i, {**wit, 'text': short(text, 200), 'read_back': r.brief()}, mech=f"read-{fmt}-custom")
+                    elif hasattr(x, 'secs'):
+                        # the document itself holds the custom form, once
+                        loaded = json.loads(text) if fmt == 'json' else yaml.safe_load(text)
+                        if not (isinstance(loaded, dict) and loaded.get('secs') == x.secs * 1000 and loaded.get('ss') == [1000, 2000]):
+                            ctx.violation('custom-converters-honoured', 'custom', i, {**wit, 'text': short(text, 200), 'expected_secs_in_document': x.secs * 1000},
+                                          mech=f"write-{fmt}-custom-form-not-applied-exactly-once")
         del OPENED[:]
 
     drive.for_each_case(ctx, 'custom', 25, body_custom, gen=lambda c, r: Ty('int'), seconds=60)
+
+    # unparameterised container types as the whole type: Sequence / Mapping / list / tuple / dict / set, typing and collections.abc
+    # spellings. What from_data makes of the loaded document is the same typed image the value had (a tuple for Sequence, ...).
+    def body_bare(i, rng, ty, T):
+        import collections.abc as cabc
+        seqs = (cabc.Sequence, t.Sequence, cabc.MutableSequence, t.MutableSequence, list, tuple, t.List, t.Tuple, collections.deque)
+        maps = (cabc.Mapping, t.Mapping, cabc.MutableMapping, dict, t.Dict, collections.OrderedDict)
+        sets = (set, frozenset, cabc.Set, t.FrozenSet)
+        BT = rng.choice(seqs + maps + sets)
+        if BT in maps:
+            v = rng.choice(({'a': 1, 'b': [1, 2]}, {}, {'k': {'n': None}}, {'x': 'héllo'}))
+        elif BT in sets:
+            v = rng.choice(([1, 2, 3], [], ['a', 'b']))
+        else:
+            v = rng.choice(([1, 2, 3], [], ['a', [1, 2], {'k': 1}], [None, True, 2.5]))
+        x0 = observe(env.from_data, v, BT)
+        if x0.kind != 'value':
+            return
+        x = x0.val
+        for fmt in ('json', 'yaml'):
+            path = fresh(fmt)
+            del OPENED[:]
+            w = observe(getattr(env.m_io, f"write_{fmt}"), x, path, ty=BT)
+            ctx.count('bare_container_round_trips')
+            ctx.case(('bare', str(BT), fmt, w.kind), nontrivial=True)
+            wit = {'type': str(BT), 'format': fmt, 'value': short(x, 150), 'value_type': type(x).__name__, 'write': w.brief()}
+            if w.kind != 'value':
+                ctx.violation('write', 'bare', i, wit, mech=f"write-{fmt}-raised:bare-container")
+                continue
+            check_opened(i, 'bare', f"write_{fmt}(bare)")
+            r = observe(getattr(env.m_io, f"from_{fmt}"), path, BT)
+            check_opened(i, 'bare', f"from_{fmt}(bare)")
+            if r.kind != 'value' or not deep_typed_eq(x, r.val)[0] or type(r.val) is not type(x):
+                ctx.violation('round-trip', 'bare', i, {**wit, 'read_back': r.brief(), 'read_back_type': type(r.val).__name__ if r.kind == 'value' else None},
+                              mech='bare-container-type-image-differs')
+        del OPENED[:]
+
+    drive.for_each_case(ctx, 'bare', max(20, ctx.budget // 10), body_bare, gen=lambda c, r: Ty('int'), seconds=30)
 
     # ---- string variants of the dataclass methods over the whole formatting grid, with strings whose edges matter -----------
     def body_strings(i, rng, ty, T):
